@@ -76,6 +76,30 @@ func c02Graph(c *c02Case) *gen.Graph {
 			g.Connect(sp, e, nil)
 			continue
 		}
+		if c.Shape == "skipbnd" {
+			// a branch that is never taken holds an activity with a boundary event: its listener exists from the
+			// construction of the instance on but is never armed, and must not count as a token
+			x := g.Add(gen.Xor, fmt.Sprintf("x%d", i), "")
+			hb := g.Add(gen.Task, fmt.Sprintf("hb%d", i), "")
+			eh := g.Add(gen.End, fmt.Sprintf("endh%d", i), "")
+			b := g.Add(gen.Boundary, fmt.Sprintf("bnd%d", i), "")
+			b.Host = hb.ID
+			b.Intr = i%2 == 0
+			b.Events = []gen.EventDef{{Type: "signal", Ref: fmt.Sprintf("sb%d", i)}}
+			tx := g.Add(gen.Task, fmt.Sprintf("tx%d", i), "")
+			ex := g.Add(gen.End, fmt.Sprintf("endx%d", i), "")
+			a := g.Add(gen.Task, fmt.Sprintf("a%d", i), "")
+			e := g.Add(gen.End, fmt.Sprintf("end%d", i), "")
+			g.Connect(s, x, nil)
+			g.Connect(x, hb, &gen.Cond{Kind: "const", Lit: false})
+			d := g.Connect(x, a, nil)
+			x.Default = d.ID
+			g.Connect(hb, eh, nil)
+			g.Connect(b, tx, nil)
+			g.Connect(tx, ex, nil)
+			g.Connect(a, e, nil)
+			continue
+		}
 		if c.Shape == "short" && i == 1 {
 			e := g.Add(gen.End, "end1", "")
 			g.Connect(s, e, nil)
@@ -96,9 +120,9 @@ func c02Graph(c *c02Case) *gen.Graph {
 func c02Cases(tier string, seed uint64) []fw.Case {
 	var cs []fw.Case
 	for starts := 1; starts <= 3; starts++ {
-		shapes := []string{"ind", "join", "short", "forkend", "sub"}
+		shapes := []string{"ind", "join", "short", "forkend", "sub", "skipbnd"}
 		if starts == 1 {
-			shapes = []string{"ind", "short", "forkend", "sub"}
+			shapes = []string{"ind", "short", "forkend", "sub", "skipbnd"}
 		}
 		for _, shape := range shapes {
 			modes := []string{"all", "each"}
